@@ -18,4 +18,18 @@ def main : IO Unit := do
       let u := UnmarshalValue_boolElem bs (i : Nat) [3]
       let w : Option UnmarshalValue_boolElem.Out := some { vals := [3, clampBool (bs.getD i 0)], v := clampBool (bs.getD i 0) }
       if u != w then IO.println s!"DIFF UnmarshalValue_boolElem b={bs} i={i} vals=[3] go={repr u} model={repr w} op=-"
+  for arch in [0, 1, 2] do
+    for n in [0, 1, 0x12, 0x1234, 0x8001, 0x12345678, 0xFFFFFFFF, 0x0102030405060708, 0xFFFFFFFFFFFFFFFF] do
+      let cases : List (String × Option (List Nat) × Nat) := [
+        ("int16", (Value_MarshalAppend_int16 arch [5] n).ret, 2), ("uint16", (Value_MarshalAppend_uint16 arch [5] n).ret, 2),
+        ("int32", (Value_MarshalAppend_int32 arch [5] n).ret, 4), ("uint32", (Value_MarshalAppend_uint32 arch [5] n).ret, 4),
+        ("float32", (Value_MarshalAppend_float32 arch [5] n).ret, 4), ("int64", (Value_MarshalAppend_int64 arch [5] n).ret, 8),
+        ("uint64", (Value_MarshalAppend_uint64 arch [5] n).ret, 8), ("float64", (Value_MarshalAppend_float64 arch [5] n).ret, 8)]
+      for (name, g, w) in cases do
+        if g != some ([5] ++ enc w arch n) then
+          IO.println s!"DIFF Value_MarshalAppend_{name} arch={arch} b=[5] v.num={n} go={g} model={some ([5] ++ enc w arch n)} op=-"
+  for vals in [[], [0], [1], [2], [255], [0, 1, 2, 3, 254, 255], [1, 1, 0]] do
+    let g := (Value_MarshalAppend_sliceBool [5] vals).map (·.ret)
+    if g != some (some ([5] ++ vals.map boolByte)) then
+      IO.println s!"DIFF Value_MarshalAppend_sliceBool b=[5] vals={vals} go={g} model={[5] ++ vals.map boolByte} op=-"
   IO.println "DONE"
